@@ -28,7 +28,7 @@ pub enum AnyId {
 /// internal, never emitted type of the function's entry sequence, which no public lookup may see
 /// "customs+names": custom sections that all carry the same name, some raw and some of a user-defined
 /// type, with `remove_raw(name)` as a third operation (it must take the first live *raw* one only)
-pub const COLLS: [&str; 13] = ["funcs", "globals", "tables", "memories", "data", "elements", "imports", "exports", "customs", "locals", "types", "types+function", "customs+names"];
+pub const COLLS: [&str; 14] = ["funcs", "globals", "tables", "memories", "data", "elements", "imports", "exports", "customs", "locals", "types", "types+function", "customs+names", "imports+kinds"];
 
 #[derive(Debug)]
 struct TypedSection {
@@ -69,20 +69,25 @@ pub struct IdObj {
     internal: Vec<AnyId>,
     /// per issued item: its payload when it was last live
     last_payload: Vec<String>,
+    /// imports+kinds: the function imports the history created
+    import_funcs: Vec<(walrus::ImportId, FunctionId)>,
 }
 
 pub struct IdSubject {
     pub coll: &'static str,
     pub with_function: bool,
     pub shared_names: bool,
+    /// imports of several kinds under the same module / field names, and `imports.get_func`
+    pub mixed_kinds: bool,
 }
 
 impl IdSubject {
     pub fn of(name: &str) -> IdSubject {
         let with_function = name == "types+function";
         let shared_names = name == "customs+names";
-        let coll = if with_function { "types" } else if shared_names { "customs" } else { COLLS.iter().find(|x| **x == name).copied().unwrap_or("globals") };
-        IdSubject { coll, with_function, shared_names }
+        let mixed_kinds = name == "imports+kinds";
+        let coll = if with_function { "types" } else if shared_names { "customs" } else if mixed_kinds { "imports" } else { COLLS.iter().find(|x| **x == name).copied().unwrap_or("globals") };
+        IdSubject { coll, with_function, shared_names, mixed_kinds }
     }
 }
 
@@ -117,6 +122,27 @@ fn add(coll: &str, o: &mut IdObj, v: usize) -> (AnyId, String) {
         "elements" => {
             let id = m.elements.add(ElementKind::Passive, ElementItems::Functions(vec![o.anchor_func; 1 + s as usize % 3 + v]));
             (AnyId::E(id), format!("elem {}", 1 + s as usize % 3 + v))
+        }
+        "imports" if v >= 20 => {
+            // mixed-kind variant: 20 = a table import under fresh names, 21 = a function import under
+            // the names of the newest live table import (once), else under fresh names
+            let is_func = |o_if: &Vec<(walrus::ImportId, FunctionId)>, id: &AnyId| matches!(id, AnyId::I(x) if o_if.iter().any(|(i, _)| i == x));
+            if v == 20 {
+                let name = format!("n{}", s);
+                let (_, iid) = m.add_import_table("env", &name, false, 1, None, walrus::RefType::Funcref);
+                (AnyId::I(iid), format!("import env.{}", name))
+            } else {
+                let live_funcs: Vec<String> = o.issued.iter().filter(|(id, p)| p.is_some() && is_func(&o.import_funcs, id)).filter_map(|(_, p)| p.clone()).collect();
+                let shared = o.issued.iter().rev().find_map(|(id, p)| match p {
+                    Some(p) if !is_func(&o.import_funcs, id) && !live_funcs.contains(p) => Some(p.trim_start_matches("import env.").to_string()),
+                    _ => None,
+                });
+                let name = shared.unwrap_or_else(|| format!("fn{}", s));
+                let ty = m.types.add(&[], &[]);
+                let (f, iid) = m.add_import_func("env", &name, ty);
+                o.import_funcs.push((iid, f));
+                (AnyId::I(iid), format!("import env.{}", name))
+            }
         }
         "imports" => {
             // value 1: the field name of the newest import again, under another module name
@@ -284,7 +310,7 @@ impl Subject for IdSubject {
             internal = m.types.iter().map(|t| AnyId::Ty(t.id())).filter(|i| *i != AnyId::Ty(ty)).collect();
         }
         let last_payload = issued.iter().map(|(_, p)| p.clone().unwrap_or_default()).collect();
-        Ok(IdObj { m, issued, serial: 0, anchor_func, findings: vec![], internal, last_payload })
+        Ok(IdObj { m, issued, serial: 0, anchor_func, findings: vec![], internal, last_payload, import_funcs: vec![] })
     }
     fn ops(&self, hist: &[IOp]) -> Vec<IOp> {
         // replay the reference to know which issued items are live
@@ -320,8 +346,8 @@ impl Subject for IdSubject {
             }
         }
         let nv = if self.coll == "types" || self.coll == "locals" { 3 } else { 2 };
-        let by_name = self.coll == "exports" || self.coll == "imports";
-        let mut ops: Vec<IOp> = if self.shared_names { vec![IOp::Add(10), IOp::Add(11), IOp::RemoveRaw] } else { (0..nv).map(IOp::Add).collect() };
+        let by_name = self.coll == "exports" || (self.coll == "imports" && !self.mixed_kinds);
+        let mut ops: Vec<IOp> = if self.shared_names { vec![IOp::Add(10), IOp::Add(11), IOp::RemoveRaw] } else if self.mixed_kinds { vec![IOp::Add(20), IOp::Add(21)] } else { (0..nv).map(IOp::Add).collect() };
         if self.coll != "locals" {
             for (k, l) in live.iter().enumerate() {
                 if *l {
@@ -485,7 +511,25 @@ impl Subject for IdSubject {
                 }
             }
         }
-        if coll == "imports" {
+        if self.mixed_kinds {
+            // `get_func(module, name)`: the first live function import under those names, an error when there is none
+            let mut names: Vec<String> = o.issued.iter().filter_map(|(_, p)| p.clone()).collect();
+            names.extend(o.last_payload.iter().cloned());
+            names.sort();
+            names.dedup();
+            for p in names {
+                let n = p.trim_start_matches("import env.");
+                let want = o.issued.iter().find_map(|(id, q)| match (id, q) {
+                    (AnyId::I(x), Some(q)) if *q == p => o.import_funcs.iter().find(|(i, _)| i == x).map(|(_, f)| *f),
+                    _ => None,
+                });
+                let got = o.m.imports.get_func("env", n).ok();
+                if got != want {
+                    fs.push(Finding { sig: "get-func-by-name:imports".into(), detail: format!("get_func(env,{}) = {:?}, the first live function import under those names is {:?}", n, got, want) });
+                }
+            }
+        }
+        if coll == "imports" && !self.mixed_kinds {
             for (id, p) in &o.issued {
                 if let AnyId::I(x) = id {
                     let name = format!("g{}", format!("{:?}", p).len()); // placeholder to keep the borrow simple
@@ -507,7 +551,8 @@ impl Subject for IdSubject {
         // what was done to an item before it was deleted are different states (an implementation may
         // well keep something of a deleted item behind - that is what the property forbids)
         let canon: Vec<(bool, &Option<String>, Option<&String>)> = o.issued.iter().enumerate().map(|(k, (_, p))| (p.is_some(), p, o.last_payload.get(k))).collect();
-        (wmodel::fnv(format!("{:?}", canon).as_bytes()), fs)
+        let kinds: Vec<bool> = o.issued.iter().map(|(id, _)| matches!(id, AnyId::I(x) if o.import_funcs.iter().any(|(i, _)| i == x))).collect();
+        (wmodel::fnv(format!("{:?}{:?}", canon, kinds).as_bytes()), fs)
     }
 }
 
